@@ -18,7 +18,7 @@ type C01 struct{}
 
 func (C01) ID() string { return "C01" }
 func (C01) Rule() string {
-	return "rapid-generated trees (<=14 nodes, depth<=4: dirs, files, symlinks, special files, .gitignore at any depth) x scan options (skip list/regex/glob alone and together, gitignore, requested paths, sub-dir cut-off, size limit, symlink reading, absolute paths, virtual/real root) x 1-4 extractors with arbitrary predicates x seeded disk behaviour (listing order, chunking, EOF style, dir-handle flavour); non-trivial = at least one expected extraction AND at least one candidate file that must not be extracted; distinct = distinct scenario JSON"
+	return "rapid-generated trees (<=14 nodes, depth<=4: dirs, files, symlinks, special files, .gitignore at any depth) x scan options (skip list/regex/glob alone and together, gitignore, requested paths, sub-dir cut-off, size limit, symlink reading, absolute paths, virtual/real root, a second real root whose path is a string prefix of the first with the skip list spelled under it, the cut-off without requested paths, requested files that only a .gitignore excludes (dispatch not asserted); with >= 2 requested paths the scan is repeated with the list reversed and must extract the same) x 1-4 extractors with arbitrary predicates x seeded disk behaviour (listing order, chunking, EOF style, dir-handle flavour); non-trivial = at least one expected extraction AND at least one candidate file that must not be extracted; distinct = distinct scenario JSON"
 }
 
 func (C01) Gen(rt *rapid.T, tier string) any {
